@@ -86,7 +86,7 @@ func main() {
 					bad++
 				}
 				fmt.Printf("   %s %-70s %-8s %-14s %.2fs  %s\n", mark, o.Name, o.Res.Status, o.Res.Solver, o.Res.TimeS, o.Pos)
-				if o.Res.Status != "unsat" && strings.HasPrefix(o.Res.Output, "; conjunct") {
+				if o.Res.Status != "unsat" && strings.HasPrefix(o.Res.Output, "; failing part") {
 					l := strings.SplitN(o.Res.Output, "\n", 2)[0]
 					if len(l) > 700 {
 						l = l[:700]
